@@ -59,19 +59,6 @@ def register_row(reg):
     background; every pixel outside the window keeps its value.  modelval_(x, y) names the model
     with the row's parameters set (an opaque elementwise function here)."""
     I = 'photutils/datasets/images.py::'
-    reg.add(Contract(
-        target='photutils/utils/cutouts.py::overlap_slices', props=['C18'],
-        params={'large_array_shape': ('tuple', 'pos', 'pos'), 'small_array_shape': ('tuple', 'pos', 'pos'),
-                'position': ('tuple', 'real', 'real'), 'mode': 'str'},
-        ensures=[('inside-the-large-array',
-                  '0 <= result[0][0].start and result[0][0].start < result[0][0].stop and '
-                  'result[0][0].stop <= large_array_shape[0] and 0 <= result[0][1].start and '
-                  'result[0][1].start < result[0][1].stop and '
-                  'result[0][1].stop <= large_array_shape[1]')],
-        returns=('tuple', 'slice2', 'slice2'), assumed=True,
-        note='_overlap_slices(mode="trim") returns a non-empty window inside the image or raises '
-             'NoOverlapError (astropy.nddata.overlap_slices; which window it is: bounded driver)',
-    ))
     win = ('j >= slc_lg[0].start and j < slc_lg[0].stop and i >= slc_lg[1].start and '
            'i < slc_lg[1].stop')
     box = '(0, shape[0]), (0, shape[1])'
@@ -83,6 +70,11 @@ def register_row(reg):
                 'local_bkg': ('seq', 'real'), 'i': 'nat'},
         requires=['image.shape == shape', 'i < len(local_bkg)'],
         ensures=[
+            ('window-is-the-rows-box-clipped-to-the-image',
+             'slc_lg[0].start == max(0, ceil(y0 - mod_shape[0] / 2)) and '
+             'slc_lg[0].stop == min(shape[0], ceil(y0 - mod_shape[0] / 2) + mod_shape[0]) and '
+             'slc_lg[1].start == max(0, ceil(x0 - mod_shape[1] / 2)) and '
+             'slc_lg[1].stop == min(shape[1], ceil(x0 - mod_shape[1] / 2) + mod_shape[1])'),
             ('inside-the-window-model-at-the-pixel-plus-the-rows-background',
              f'forall(lambda j, i_: implies({win.replace(" i ", " i_ ").replace("i >=", "i_ >=").replace("and i <", "and i_ <")}, '
              'image[j, i_] == old_image[j, i_] + modelval_(i_, j) + local_bkg[i]), ' + box + ')'),
@@ -90,7 +82,9 @@ def register_row(reg):
              f'forall(lambda j, i_: implies(not ({win.replace("i >=", "i_ >=").replace("and i <", "and i_ <")}), '
              'image[j, i_] == old_image[j, i_]), ' + box + ')'),
         ],
-        mutants=[('subimg = model(xx, yy)', 'subimg = model(yy, xx)'),
+        mutants=[('(y0, x0), mode', '(x0, y0), mode'),
+                 ('overlap_slices(shape, mod_shape,', 'overlap_slices(shape, mod_shape[::-1],'),
+                 ('subimg = model(xx, yy)', 'subimg = model(yy, xx)'),
                  ('image[slc_lg] += subimg + local_bkg[i]', 'image[slc_lg] = subimg + local_bkg[i]'),
                  ('image[slc_lg] += subimg + local_bkg[i]', 'image[slc_lg] += subimg'),
                  ('yy, xx = np.mgrid[slc_lg]', 'xx, yy = np.mgrid[slc_lg]')],
